@@ -55,7 +55,7 @@ Budget == 600000
 SlotsOf(e) == IF e.all THEN 0..(Slots(e.sb) - 1) ELSE CheckSlots(e.sb, e.hint)
 \* recovery indexes evaluated: everything when affordable, else ends, chunk edges and a spread
 JsFull(e, nslots) ==
-  LET r == e.r  cost == OrigCount(e) * nslots IN
+  LET r == e.r  cost == (OrigCount(e) + 1) * nslots IN
   IF cost * r <= Budget THEN 0..(r-1)
   ELSE LET cnt == IF Budget \div cost < 6 THEN 6 ELSE Budget \div cost
            m == IF e.rate = "high" THEN NPot(e.r) ELSE NPot(e.k)
@@ -80,18 +80,96 @@ EncOK(e) ==
      ELSE /\ Len(e.recj) >= Min2(e.r, 16)
           /\ 0 \in {e.recj[t][1] : t \in DOMAIN e.recj}
           /\ (e.r - 1) \in {e.recj[t][1] : t \in DOMAIN e.recj}
-          /\ LET cost == OrigCount(e) * Cardinality(slots)
+          /\ LET cost == (OrigCount(e) + 1) * Cardinality(slots)
                  cnt == IF Budget \div cost < 6 THEN 6 ELSE Budget \div cost IN
              \A t \in 1..Min2(Len(e.recj), cnt) :
                 LET j == e.recj[t][1]  bytes == e.recj[t][2] IN
                 /\ j >= 0 /\ j < e.r /\ Len(bytes) = e.sb
                 /\ \A s \in slots : SymbolAt(bytes, e.sb, s) = Expected(e, pre, j, s)
 
-EventOK(e) ==
-  CASE e.ev = "enc" -> EncOK(e)
+(***************************************************************************)
+(* dec: one decode round.  The shards given are a consistent codeword      *)
+(* (originals + a reference encoder's recovery, itself pinned by enc       *)
+(* events); any set of at least k of them must restore exactly the missing *)
+(* originals, in ascending order, with the configured length.              *)
+(***************************************************************************)
+DecOK(e) ==
+  LET gO == SeqSet(e.gO)  gR == SeqSet(e.gR)  missing == Missing(e.k, gO) IN
+  /\ RateFits(e)
+  /\ gO \subseteq 0..(e.k-1) /\ gR \subseteq 0..(e.r-1)
+  /\ Cardinality(gO) = Len(e.gO) /\ Cardinality(gR) = Len(e.gR)      \* distinct shards were given
+  /\ Restorable(e.k, gO, gR)                                          \* the driver only records sufficient sets
+  /\ ~Has(e, "fail")                                                  \* ... so decode must succeed
+  /\ IF Has(e, "restored")
+     THEN /\ Len(e.odig) = Cardinality(missing)
+          /\ Len(e.restored) = Cardinality(missing)
+          /\ \A t \in DOMAIN e.restored :
+                LET i == e.restored[t][1] IN
+                /\ i \in missing
+                /\ e.restored[t][2] = e.sb                             \* exactly the configured size
+                /\ e.restored[t] = e.odig[t]                           \* byte for byte the original (digest)
+                /\ (t > 1 => e.restored[t-1][1] < i)                   \* ascending, hence each exactly once
+     ELSE \* large rounds: index list in full, one digest over all restored shards in order
+          /\ Len(e.ridx) = Cardinality(missing)
+          /\ \A t \in DOMAIN e.ridx : e.ridx[t] \in missing /\ (t > 1 => e.ridx[t-1] < e.ridx[t])
+          /\ e.rlenok
+          /\ e.rdigall = e.odigall
+  /\ e.again = 0                                                      \* None forever after exhaustion
+  /\ \A t \in DOMAIN e.probes : e.probes[t][2] = (e.probes[t][1] \in missing)
+
+(***************************************************************************)
+(* lin / scal / same: relations between enc events (cross references are   *)
+(* line offsets relative to the relation's own line; a group of events      *)
+(* that refer to each other carries the same "g" and is never split).  The input relation is checked here too,   *)
+(* so a wrong xor or product computed by the driver cannot pass.           *)
+(***************************************************************************)
+SameShape(a, b) == /\ a.ev = "enc" /\ b.ev = "enc" /\ a.k = b.k /\ a.r = b.r /\ a.sb = b.sb
+                   /\ a.rate = b.rate /\ ~Has(a, "fail") /\ ~Has(b, "fail")
+                   /\ Dense(a) /\ Dense(b) /\ Has(a, "rec") = Has(b, "rec")
+RecCount(e) == IF Has(e, "rec") THEN Len(e.rec) ELSE Len(e.recj)
+RecBytes(e, t) == IF Has(e, "rec") THEN e.rec[t] ELSE e.recj[t][2]
+RecIndex(e, t) == IF Has(e, "rec") THEN t - 1 ELSE e.recj[t][1]
+XorBytes(x, y) == [n \in DOMAIN x |-> x[n] ^^ y[n]]
+
+LinOK(e, ln) ==
+  \A a \in {Rec[ln + e.a]} : \A b \in {Rec[ln + e.b]} : \A c \in {Rec[ln + e.ab]} :
+  /\ SameShape(a, b) /\ SameShape(a, c)
+  /\ \A i \in 1..a.k : c.orig[i] = XorBytes(a.orig[i], b.orig[i])
+  /\ RecCount(a) = RecCount(b) /\ RecCount(a) = RecCount(c)
+  /\ \A t \in 1..RecCount(a) :
+        /\ RecIndex(a, t) = RecIndex(b, t) /\ RecIndex(a, t) = RecIndex(c, t)
+        /\ RecBytes(c, t) = XorBytes(RecBytes(a, t), RecBytes(b, t))
+
+ScalOK(e, ln) ==
+  \A a \in {Rec[ln + e.a]} : \A c \in {Rec[ln + e.ca]} :
+  /\ SameShape(a, c)
+  /\ \A i \in 1..a.k : \A s \in 0..(Slots(a.sb) - 1) :
+        SymbolAt(c.orig[i], a.sb, s) = Mul(e.c, SymbolAt(a.orig[i], a.sb, s))
+  /\ RecCount(a) = RecCount(c)
+  /\ \A t \in 1..RecCount(a) :
+        /\ RecIndex(a, t) = RecIndex(c, t)
+        /\ \A s \in 0..(Slots(a.sb) - 1) :
+              SymbolAt(RecBytes(c, t), a.sb, s) = Mul(e.c, SymbolAt(RecBytes(a, t), a.sb, s))
+
+\* a default-rate kind and the dedicated codec of the rate the RULE fixes give the same bytes
+SameOK(e, ln) ==
+  \A a \in {Rec[ln + e.a]} : \A b \in {Rec[ln + e.b]} :
+  /\ SameShape(a, b)
+  /\ a.kind \in {"default", "rs", "oneshot"}
+  /\ b.kind = RateOf("default", a.k, a.r)
+  /\ a.orig = b.orig
+  /\ RecCount(a) = RecCount(b)
+  /\ \A t \in 1..RecCount(a) : RecIndex(a, t) = RecIndex(b, t) /\ RecBytes(a, t) = RecBytes(b, t)
+
+EventOK(e, ln) ==
+  CASE e.ev = "enc"  -> EncOK(e)
+    [] e.ev = "dec"  -> DecOK(e)
+    [] e.ev = "lin"  -> LinOK(e, ln)
+    [] e.ev = "scal" -> ScalOK(e, ln)
+    [] e.ev = "same" -> SameOK(e, ln)
     [] OTHER -> FALSE        \* an event the specification has no action for (e.g. a panic) is rejected
 
-TraceInv == ph = 1 => \A e \in {Rec[l]} : EventOK(e)
+TraceInv == ph = 1 => \A e \in {Rec[l]} : EventOK(e, l)
 \* every event was visited
 AllSeen == TLCGet("stats").distinct = 2 * N + 1
 =============================================================================
